@@ -119,7 +119,9 @@ RECURSIVE TEqSeq(_, _)
 TEqSeq(a, b) == Len(a) = Len(b) /\ \A i \in 1..Len(a) : TEq(a[i], b[i])
 TEq(a, b) ==
   /\ a.k = b.k
-  /\ CASE a.k \in {"Int", "Bool"} -> a.v = b.v
+  /\ CASE a.k = "Bool" -> a.v = b.v
+       \* an integer literal carries its value (families) or its spelling as handed to the parser (round trip)
+       [] a.k = "Int" -> (IF "v" \in DOMAIN a THEN a.v ELSE a.digits) = (IF "v" \in DOMAIN b THEN b.v ELSE b.digits)
        [] a.k = "Ident" -> a.name = b.name
        [] a.k = "Str" -> a.cp = b.cp
        [] a.k = "Float" -> a.bits = b.bits
@@ -171,4 +173,38 @@ MixedTrees ==
       Assign(A, Infix(o, B, C)), Infix(o, A, Assign(B, C)), Assign(Index1(A, B), Infix(o, B, C)),
       Assign(A, Assign(B, C)) }
     : o \in BinOpSet, p \in {"-", "!"} }
+
+(* ---- whole programs: where one statement ends and the next begins ---------------------------- *)
+ES(e) == [k |-> "Expr", e |-> e]
+If3(withElse) ==          \* als a {1} anders als b {2} anders als c {3} [anders {4}]
+  [k |-> "If", c |-> A, th |-> <<ES(MkInt(1))>>, hasel |-> TRUE,
+   el |-> <<ES([k |-> "If", c |-> B, th |-> <<ES(MkInt(2))>>, hasel |-> TRUE,
+                el |-> <<ES([k |-> "If", c |-> C, th |-> <<ES(MkInt(3))>>, hasel |-> withElse,
+                             el |-> IF withElse THEN <<ES(MkInt(4))>> ELSE <<>>])>>])>>]
+Nested(innerElse, outerElse) ==      \* als a { als b {1} [anders {2}] } [anders {3}]   (no dangling else)
+  [k |-> "If", c |-> A,
+   th |-> <<ES([k |-> "If", c |-> B, th |-> <<ES(MkInt(1))>>, hasel |-> innerElse,
+                el |-> IF innerElse THEN <<ES(MkInt(2))>> ELSE <<>>])>>,
+   hasel |-> outerElse, el |-> IF outerElse THEN <<ES(MkInt(3))>> ELSE <<>>]
+Firsts ==
+  { ES(A), [k |-> "Let", name |-> "x", e |-> A], ES(Call1(A, B)), ES(Index1(A, B)), ES([k |-> "Array", vals |-> <<A>>]),
+    ES([k |-> "If", c |-> A, th |-> <<ES(MkInt(1))>>, hasel |-> FALSE, el |-> <<>>]),
+    ES([k |-> "If", c |-> A, th |-> <<ES(MkInt(1))>>, hasel |-> TRUE, el |-> <<ES(MkInt(2))>>]),
+    ES([k |-> "If", c |-> A, th |-> <<>>, hasel |-> TRUE, el |-> <<>>]),
+    ES([k |-> "While", c |-> A, body |-> <<[k |-> "Break"]>>]),
+    ES([k |-> "While", c |-> A, body |-> <<>>]),
+    ES([k |-> "Func", name |-> "f", params |-> <<>>, body |-> <<ES(MkInt(1))>>]),
+    ES([k |-> "Func", name |-> "f", params |-> <<"p", "q">>, body |-> <<>>]),
+    [k |-> "Block", body |-> <<ES(MkInt(1))>>], [k |-> "Block", body |-> <<>>],
+    [k |-> "Let", name |-> "x", e |-> [k |-> "If", c |-> A, th |-> <<ES(MkInt(1))>>, hasel |-> TRUE, el |-> <<ES(MkInt(2))>>]],
+    [k |-> "Let", name |-> "g", e |-> [k |-> "Func", name |-> "", params |-> <<"p">>, body |-> <<ES(Ident("p"))>>]] }
+  \cup {ES(If3(w)) : w \in BOOLEAN}
+  \cup {ES(Nested(i, o)) : i, o \in BOOLEAN}
+Seconds ==
+  { ES(B), ES(Prefix("-", B)), ES(Prefix("!", B)), ES([k |-> "Array", vals |-> <<B>>]),
+    ES(Index1([k |-> "Array", vals |-> <<B>>], C)), ES(Call1(B, C)), [k |-> "Let", name |-> "y", e |-> Prefix("-", B)],
+    ES(Assign(B, C)), ES([k |-> "If", c |-> B, th |-> <<ES(MkInt(5))>>, hasel |-> FALSE, el |-> <<>>]),
+    [k |-> "Block", body |-> <<ES(B)>>] }
+StmtProgs == {<<s1, s2>> : s1 \in Firsts, s2 \in Seconds} \cup {<<s1>> : s1 \in Firsts}
+
 =============================================================================
